@@ -24,6 +24,8 @@ MPS_DEFS = {
     # period durations with fractional seconds (the editing API accepts PT10.5S)
     'mpsf': [dict(pid='f1', stream='bbb', start_s=4, duration_s=10.5, tracks=[('video', 1, 'MAIN'), ('audio', 2, 'MAIN')]),
              dict(pid='f2', stream='tears', start_s=8, duration_s=8, tracks=[('video', 1, 'MAIN'), ('audio', 2, 'MAIN')])],
+    # a period over a stream whose stored fragments are numbered from 5 (the manifest advertises startNumber from the index)
+    'mpsr': [dict(pid='n1', stream='rn5', start_s=8, duration_s=20, tracks=[('video', 1, 'MAIN')])],
     'mpsv': [dict(pid='v1', stream='vtt', start_s=10, duration_s=24, tracks=[('video', 1, 'MAIN'), ('text', 4, 'MAIN')]),
              dict(pid='v2', stream='bbb', start_s=0, duration_s=12, tracks=[('video', 1, 'MAIN')])],
 }
@@ -50,6 +52,10 @@ def main(tier_: str) -> int:
             from harness.core import REPO
             da.add_fixture('bbb', directory='vtt', title='stored without tfdt', only={'bbb_v7', 'bbb_a1'},
                            extra=[(REPO / 'tests' / 'fixtures' / 'webvtt.mp4', 'vtt_t2')])
+            from harness.synth import renumber_mfhd
+            rn5 = d / 'rn5_v7.mp4'
+            rn5.write_bytes(renumber_mfhd((REPO / 'tests' / 'fixtures' / 'bbb' / 'bbb_v7.mp4').read_bytes(), first=5, step=1))
+            da.add_fixture('bbb', directory='rn5', title='fragments numbered from 5', only={'bbb_a1'}, extra=[(rn5, 'rn5_v7')])
             for name, periods in MPS_DEFS.items():
                 da.add_mps(name=name, title=f'MPS {name}', periods=periods)
             drv = HttpDriver(da)
@@ -57,84 +63,104 @@ def main(tier_: str) -> int:
             nows = [datetime.datetime(2024, 3, 5, 12, 0, 0, tzinfo=datetime.timezone.utc) + datetime.timedelta(seconds=x)
                     for x in ([0, 31.5, 76, 77.25, 200.0] if tier_ == 'quick' else [0, 1, 31.5, 32, 44, 75.999, 76, 76.001, 77.25, 120, 152, 200, 3000.5])]
             tid = 0
-            for name, periods in MPS_DEFS.items():
-                for mode in ('vod', 'live'):
-                    # with a DRM selection a Period over a stream without encrypted files (tears) falls back to its clear files
-                    for qs in (['depth=60'] + (['depth=60&drm=playready'] if name in ('mpsa', 'mpsc') else []) if tier_ == 'quick'
-                               else ['depth=60', 'depth=20&abr=0', 'depth=100&base=0', 'depth=60&drm=playready', 'depth=60&drm=all']):
-                        for now in (nows if mode == 'live' else nows[:1]):
-                            tid += 1
-                            da.clock.set(now)
-                            ast = now - datetime.timedelta(seconds=rng.choice([300, 1000, 86400 + 7]))
-                            q = qs + (f'&start={ast.strftime("%Y-%m-%dT%H:%M:%SZ")}' if mode == 'live' else '')
-                            url = f'http://localhost/mps/{mode}/{name}/hand_made.mpd?{q}'
-                            r = c.get(path_of(url))
-                            if r.status_code != 200:
-                                lines.append({'tid': tid, 'ev': 'refused', 'url': url, 'status': r.status_code,
-                                              'exc': da.exceptions[-1] if da.exceptions else {}})
-                                continue
-                            proj = M.project(r.data, url)
-                            listed = []
-                            pids = [p['id'] for p in proj['periods']]
-                            base_ms = None
-                            for i, p in enumerate(proj['periods']):
-                                st = (p['start'] or 0) // 1000
-                                if base_ms is None:
-                                    base_ms = st
-                                dur = (p['duration'] // 1000) if p['duration'] is not None else 10**6
-                                listed.append({'idx': i, 'loop': 0, 'start': st - base_ms, 'dur': dur})
-                            e_ms = fta_ms = 0
-                            if mode == 'live':
-                                el = now - proj['availabilityStartTime']
-                                e_ms = int(el.total_seconds() * 1000) - base_ms
-                                fta_ms = e_ms - (proj['timeShiftBufferDepth'] or 0) // 1000
-                            mpd_dur = (proj['mediaPresentationDuration'] or 0) // 1000
-                            lines.append({'tid': tid, 'ev': 'mpd', 'mode': mode, 'url': url, 'now': now.isoformat(), 'listed': listed,
-                                          'mpd_dur': mpd_dur, 'e': e_ms, 'fta': fta_ms,
-                                          'ids_unique': 1 if len(set(pids)) == len(pids) else 0, 'pids': pids})
-                            # media inside each listed period
-                            for p in proj['periods']:
-                                pid0 = (p['id'] or '').split('_')[0]
-                                pdef = next((x for x in periods if x['pid'] == pid0), None)
-                                if pdef is None:
-                                    lines.append({'tid': tid, 'ev': 'unknown_period', 'url': url, 'pid': p['id']})
-                                    continue
-                                for adp in p['adaptation_sets']:
-                                    for rep in adp['representations'][:1 if tier_ == 'quick' else 3]:
-                                        tm = rep['template']
-                                        if not (da.blob_folder / pdef['stream'] / f"{rep['id']}.mp4").exists():
-                                            ri0 = c.get(path_of(urljoin(rep['base'], M.fill_template(tm['initialization'], rep['id'], rep['bandwidth'])))) if tm else None
-                                            lines.append({'tid': tid, 'ev': 'foreign_rep', 'url': url, 'period': p['id'], 'rep': rep['id'], 'mode': mode,
-                                                          'stream': pdef['stream'], 'init': ri0.status_code if ri0 is not None else 0})
-                                            continue
-                                        sf = stored(da.blob_folder / pdef['stream'] / f"{rep['id']}.mp4")
-                                        if tm is None or '$Number$' not in (tm.get('media') or ''):
-                                            continue
-                                        ts, sn, D = int(tm['timescale']), int(tm['startNumber'] or 1), int(tm['duration'])
-                                        offset = pdef['start_s'] * ts
-                                        pdur = p['duration'] if p['duration'] is not None else int(pdef['duration_s'] * 10**6)
-                                        admitted = (pdur * ts // 10**6) // D
-                                        # nearest stored segment -> what the source still has
-                                        starts = [s.tfdt - sf.segments[0].tfdt for s in sf.segments]
-                                        m0 = min(range(len(starts)), key=lambda k: abs(starts[k] - offset)) + 1
-                                        avail = len(sf.segments) - m0 + 1
-                                        nlast = sn + min(admitted, avail) - 1
-                                        ri = c.get(path_of(urljoin(rep['base'], M.fill_template(tm['initialization'], rep['id'], rep['bandwidth']))))
-                                        keys, serve = [], []
-                                        for n in range(sn, sn + min(admitted, avail) + 1):
-                                            rr = c.get(path_of(urljoin(rep['base'], M.fill_template(tm['media'], rep['id'], rep['bandwidth'], number=n))))
-                                            sv = {'status': rr.status_code, 'tfdt': 0, 'dur': 0, 'mod': 0, 'mods': [], 'payload_ok': 0, 'wf': 0}
-                                            if rr.status_code == 200:
-                                                pm = project_media(rr.data, sf)
-                                                sv.update({'tfdt': pm['tfdt'], 'dur': pm['dur'], 'mod': pm['mod'], 'mods': pm['mods'],
-                                                           'payload_ok': pm['payload_ok'], 'wf': pm['wf']})
-                                            keys.append(n)
-                                            serve.append(sv)
-                                        nb = sn + avail
-                                        rb = c.get(path_of(urljoin(rep['base'], M.fill_template(tm['media'], rep['id'], rep['bandwidth'], number=nb))))
-                                        lines.append({'tid': tid, 'ev': 'rep', 'url': url, 'period': p['id'], 'rep': rep['id'], 'mode': mode, 'ts': ts,
-                                                      'durs': sf.durs, 'sn': sn, 'D': D, 'offset': offset, 'nlast': nlast, 'init': ri.status_code,
-                                                      'keys': keys, 'serve': serve, 'beyond': {'n': nb, 'status': rb.status_code}})
+            # second pass: the Period definitions are edited (new source offsets for the same rows) after their segments have been
+            # served once - what number n delivers depends on the definition in force, not on what the process served before
+            import copy
+            edited = {k: copy.deepcopy(v) for k, v in MPS_DEFS.items() if k in ('mpsa', 'mpsc')}
+            for k, v in edited.items():
+                for pd_ in v:
+                    pd_['start_s'] = pd_['start_s'] + 8
+
+            def apply_edit() -> None:
+                from dashlive.server import models
+                with da.app.app_context():
+                    for k, v in edited.items():
+                        mps = models.MultiPeriodStream.get(name=k)
+                        for prd in mps.periods:
+                            pd_ = next(x for x in v if x['pid'] == prd.pid)
+                            prd.start = datetime.timedelta(seconds=pd_['start_s'])
+                    models.db.session.commit()
+            for rnd, defs in enumerate((MPS_DEFS, edited)):
+              if rnd == 1:
+                  apply_edit()
+              for name, periods in defs.items():
+                for mode in (('vod', 'live') if rnd == 0 else ('vod',)):
+                      # with a DRM selection a Period over a stream without encrypted files (tears) falls back to its clear files
+                      for qs in (['depth=60'] + (['depth=60&drm=playready'] if name in ('mpsa', 'mpsc') else []) if tier_ == 'quick'
+                                 else ['depth=60', 'depth=20&abr=0', 'depth=100&base=0', 'depth=60&drm=playready', 'depth=60&drm=all']):
+                          for now in (nows if mode == 'live' else nows[:1]):
+                              tid += 1
+                              da.clock.set(now)
+                              ast = now - datetime.timedelta(seconds=rng.choice([300, 1000, 86400 + 7]))
+                              q = qs + (f'&start={ast.strftime("%Y-%m-%dT%H:%M:%SZ")}' if mode == 'live' else '')
+                              url = f'http://localhost/mps/{mode}/{name}/hand_made.mpd?{q}'
+                              r = c.get(path_of(url))
+                              if r.status_code != 200:
+                                  lines.append({'tid': tid, 'ev': 'refused', 'url': url, 'status': r.status_code,
+                                                'exc': da.exceptions[-1] if da.exceptions else {}})
+                                  continue
+                              proj = M.project(r.data, url)
+                              listed = []
+                              pids = [p['id'] for p in proj['periods']]
+                              base_ms = None
+                              for i, p in enumerate(proj['periods']):
+                                  st = (p['start'] or 0) // 1000
+                                  if base_ms is None:
+                                      base_ms = st
+                                  dur = (p['duration'] // 1000) if p['duration'] is not None else 10**6
+                                  listed.append({'idx': i, 'loop': 0, 'start': st - base_ms, 'dur': dur})
+                              e_ms = fta_ms = 0
+                              if mode == 'live':
+                                  el = now - proj['availabilityStartTime']
+                                  e_ms = int(el.total_seconds() * 1000) - base_ms
+                                  fta_ms = e_ms - (proj['timeShiftBufferDepth'] or 0) // 1000
+                              mpd_dur = (proj['mediaPresentationDuration'] or 0) // 1000
+                              lines.append({'tid': tid, 'ev': 'mpd', 'mode': mode, 'url': url, 'now': now.isoformat(), 'listed': listed,
+                                            'mpd_dur': mpd_dur, 'e': e_ms, 'fta': fta_ms,
+                                            'ids_unique': 1 if len(set(pids)) == len(pids) else 0, 'pids': pids})
+                              # media inside each listed period
+                              for p in proj['periods']:
+                                  pid0 = (p['id'] or '').split('_')[0]
+                                  pdef = next((x for x in periods if x['pid'] == pid0), None)
+                                  if pdef is None:
+                                      lines.append({'tid': tid, 'ev': 'unknown_period', 'url': url, 'pid': p['id']})
+                                      continue
+                                  for adp in p['adaptation_sets']:
+                                      for rep in adp['representations'][:1 if tier_ == 'quick' else 3]:
+                                          tm = rep['template']
+                                          if not (da.blob_folder / pdef['stream'] / f"{rep['id']}.mp4").exists():
+                                              ri0 = c.get(path_of(urljoin(rep['base'], M.fill_template(tm['initialization'], rep['id'], rep['bandwidth'])))) if tm else None
+                                              lines.append({'tid': tid, 'ev': 'foreign_rep', 'url': url, 'period': p['id'], 'rep': rep['id'], 'mode': mode,
+                                                            'stream': pdef['stream'], 'init': ri0.status_code if ri0 is not None else 0})
+                                              continue
+                                          sf = stored(da.blob_folder / pdef['stream'] / f"{rep['id']}.mp4")
+                                          if tm is None or '$Number$' not in (tm.get('media') or ''):
+                                              continue
+                                          ts, sn, D = int(tm['timescale']), int(tm['startNumber'] or 1), int(tm['duration'])
+                                          offset = pdef['start_s'] * ts
+                                          pdur = p['duration'] if p['duration'] is not None else int(pdef['duration_s'] * 10**6)
+                                          admitted = (pdur * ts // 10**6) // D
+                                          # nearest stored segment -> what the source still has
+                                          starts = [s.tfdt - sf.segments[0].tfdt for s in sf.segments]
+                                          m0 = min(range(len(starts)), key=lambda k: abs(starts[k] - offset)) + 1
+                                          avail = len(sf.segments) - m0 + 1
+                                          nlast = sn + min(admitted, avail) - 1
+                                          ri = c.get(path_of(urljoin(rep['base'], M.fill_template(tm['initialization'], rep['id'], rep['bandwidth']))))
+                                          keys, serve = [], []
+                                          for n in range(sn, sn + min(admitted, avail) + 1):
+                                              rr = c.get(path_of(urljoin(rep['base'], M.fill_template(tm['media'], rep['id'], rep['bandwidth'], number=n))))
+                                              sv = {'status': rr.status_code, 'tfdt': 0, 'dur': 0, 'mod': 0, 'mods': [], 'payload_ok': 0, 'wf': 0}
+                                              if rr.status_code == 200:
+                                                  pm = project_media(rr.data, sf)
+                                                  sv.update({'tfdt': pm['tfdt'], 'dur': pm['dur'], 'mod': pm['mod'], 'mods': pm['mods'],
+                                                             'payload_ok': pm['payload_ok'], 'wf': pm['wf']})
+                                              keys.append(n)
+                                              serve.append(sv)
+                                          nb = sn + avail
+                                          rb = c.get(path_of(urljoin(rep['base'], M.fill_template(tm['media'], rep['id'], rep['bandwidth'], number=nb))))
+                                          lines.append({'tid': tid, 'ev': 'rep', 'url': url, 'period': p['id'], 'rep': rep['id'], 'mode': mode, 'ts': ts,
+                                                        'durs': sf.durs, 'sn': sn, 'D': D, 'offset': offset, 'nlast': nlast, 'init': ri.status_code,
+                                                        'keys': keys, 'serve': serve, 'beyond': {'n': nb, 'status': rb.status_code}})
         vs, st = validate_trace('MultiPeriodTrace', lines, workdir=d, chunk=300, parallel=12)
         seen: set[str] = set()
         for v in vs:
